@@ -15,5 +15,5 @@ def distinct(e):
 
 def run(ctx):
     c01.model(ctx)
-    ctx.validate("Prop_C02", sig=c01.sig, distinct=distinct)
+    ctx.validate("Prop_C02", sig=c01.sig, distinct=distinct, traces=[ctx.out + "/trace-C01.ndjson"])
     return ctx.finish(rule="one case = one HTTP/3 response or raw-stream outcome compared with the oracle; distinct = (method, host, path, credentials ok, status)")
